@@ -15,7 +15,8 @@ import os
 
 from . import common, fttaskx, pure
 
-PROOFS = ["proofs/DelayedProofs.v", "models/Delayed.v", "proofs/HeapProofs.v", "lib/Heap.v"]
+PROOFS = ["proofs/DelayedProofs.v", "models/Delayed.v", "proofs/HeapProofs.v", "lib/Heap.v",
+          "models/DelayedInbox.v", "proofs/DelayedInboxProofs.v"]
 SEC = 1000000000
 ENV = dict(os.environ, GOMAXPROCS="2")
 
@@ -508,6 +509,32 @@ def storm_stream(chk, binary):
             chk.cov["traces_validated_against_impl"] += 1
 
 
+def late_stream(chk, binary):
+    """Monitor-only, virtual clock with ONE P (deterministic): a task handed over at a tick instant BEFORE the scheduler
+    goroutine has handled that tick (witness: a task due at that very tick has not been placed yet) must be released by
+    that tick (DelayedInbox.v: sent before the tick is handled => received before it); trials in which the scheduler
+    ran first are inconclusive and not counted."""
+    case = "c10pre trials=%d" % (40 if chk.tier == "quick" else 400)
+    try:
+        out = common.run_impl(binary, [case], env=dict(os.environ, GOMAXPROCS="1"), timeout=300)[0]
+    except common.ImplCrash as e:
+        chk.monitor_fail("late-crash", case, str(e)[-400:], "the hand-over-before-tick scenario crashed or hung")
+        return
+    mo = re.match(r"conclusive=(\d+) postponed=(\d+) first=(-?\d+)$", out)
+    if not mo:
+        chk.monitor_fail("late-crash", case, out[:300], "no result from the hand-over-before-tick scenario")
+        return
+    conclusive, postponed, first = map(int, mo.groups())
+    chk.count_case("handed-over-before-the-tick-is-handled", case, conclusive > 0)
+    chk.cov["handed_over_before_tick"] = dict(conclusive=conclusive, postponed=postponed)
+    chk.sample(dict(stream="handed-over-before-the-tick-is-handled", case=case, impl=out), limit=10)
+    if postponed:
+        chk.monitor_fail("late", case, out,
+                         "%d of %d tasks handed to SendDelayed (delay 0) at a tick instant, BEFORE the scheduler had handled that tick (a task due "
+                         "at that tick had not been placed yet), were postponed to the next tick: placed %d ns after their deadline, not less than one tick (1 s)"
+                         % (postponed, conclusive, first))
+
+
 def run(chk):
     chk.trusted = common.BASE_TRUSTED + [
         "Go faketime runtime (playground clock) as the source of virtual time; harness/cmd/fttaskx",
@@ -542,6 +569,7 @@ def run(chk):
             chk.infra_errors.append("correspondence run failed: %r" % (ex,))
         try:
             storm_stream(chk, binary)
+            late_stream(chk, binary)
         except Exception as ex:
             chk.infra_errors.append("storm stream failed: %r" % (ex,))
         try:
